@@ -1315,11 +1315,6 @@ func presencePointer(t types.Type, seen map[types.Type]bool, d int, path string)
 // is stored false. Otherwise a default such as {"x": {"items": 1}} that its schema accepts is reported.
 func ValueOptions(p *core.Prog, r *core.Report) {
 	const rule = "VALUE-OPTIONS"
-	pre := p.Func("(*objectValidator).precheck")
-	if pre == nil {
-		r.Unk(rule, "precheck", "-", "(*objectValidator).precheck not found: the schema-shape switches cannot be enumerated")
-		return
-	}
 	var optsT *types.Named
 	if o := p.Main.Pkg.Scope().Lookup("SchemaValidatorOptions"); o != nil {
 		optsT, _ = o.Type().(*types.Named)
@@ -1329,19 +1324,83 @@ func ValueOptions(p *core.Prog, r *core.Report) {
 		return
 	}
 	ost := optsT.Underlying().(*types.Struct)
+	// the schema-shape switches: boolean option fields on which, in a method of the object validator, a branch
+	// decides whether something that adds errors is called (wherever that branch lives: a pre-check helper or
+	// Validate itself). Recycling switches guard releases, the schemata switch guards bookkeeping: not errors.
+	cg := core.BuildCallGraph(p)
+	addsErrors := map[*ssa.Function]bool{}
+	for _, f := range p.Funcs {
+		core.EachInstr(f, func(i ssa.Instruction) {
+			if c, ok := i.(ssa.CallInstruction); ok {
+				if g := core.StaticCallee(c); g != nil && g.Name() == "AddErrors" {
+					addsErrors[f] = true
+				}
+			}
+		})
+	}
+	for changed := true; changed; {
+		changed = false
+		for _, f := range p.Funcs {
+			if addsErrors[f] {
+				continue
+			}
+			for _, g := range cg.Out[f] {
+				if addsErrors[g] {
+					addsErrors[f] = true
+					changed = true
+					break
+				}
+			}
+		}
+	}
 	switches := map[int]bool{}
-	core.EachInstr(pre, func(i ssa.Instruction) {
-		fa, ok := i.(*ssa.FieldAddr)
-		if !ok {
-			return
+	var pre *ssa.Function
+	for _, f := range p.Funcs {
+		top := core.EnclosingTop(f)
+		if top.Signature.Recv() == nil {
+			continue
 		}
-		if n := core.NamedOf(fa.X.Type()); n == nil || n.Obj() != optsT.Obj() {
-			return
+		if n := core.NamedOf(top.Signature.Recv().Type()); n == nil || n.Obj().Name() != "objectValidator" {
+			continue
 		}
-		if b, ok := ost.Field(fa.Field).Type().Underlying().(*types.Basic); ok && b.Kind() == types.Bool {
-			switches[fa.Field] = true
+		for _, b := range f.Blocks {
+			calls := false
+			for _, ins := range b.Instrs {
+				if c, ok := ins.(ssa.CallInstruction); ok {
+					if g := core.StaticCallee(c); g != nil && p.InSubject(g) && addsErrors[g] && g.Name() != "Validate" {
+						// a call that only reports (not the recursion into sub-validators)
+						if g.Signature.Results().Len() == 0 {
+							calls = true
+						}
+					}
+				}
+			}
+			if !calls {
+				continue
+			}
+			for _, cd := range core.CondsAt(b) {
+				ld, ok := cd.Value.(*ssa.UnOp)
+				if !ok || !cd.Sense {
+					continue
+				}
+				fa, ok := ld.X.(*ssa.FieldAddr)
+				if !ok {
+					continue
+				}
+				if n := core.NamedOf(fa.X.Type()); n == nil || n.Obj() != optsT.Obj() {
+					continue
+				}
+				if bt, ok := ost.Field(fa.Field).Type().Underlying().(*types.Basic); ok && bt.Kind() == types.Bool {
+					switches[fa.Field] = true
+					pre = f
+				}
+			}
 		}
-	})
+	}
+	if pre == nil {
+		r.Unk(rule, "switches", "-", "no branch of the object validator on a boolean option decides a report: the schema-shape switches cannot be enumerated")
+		return
+	}
 	if len(switches) == 0 {
 		r.Unk(rule, "switches", p.Pos(pre.Pos()), "the pre-check reads no boolean option: nothing to decide")
 		return
@@ -1453,32 +1512,63 @@ func ValueOptions(p *core.Prog, r *core.Report) {
 				}
 				nStores++
 				key := core.FuncName(core.EnclosingTop(f)) + ":" + w.t.Obj().Name() + ".options"
-				al, isAl := st.Val.(*ssa.Alloc)
-				if !isAl {
-					r.Bad(rule, key, p.Pos(st.Pos()), fmt.Sprintf("the %s is given %s as its options: not a private options value with the schema-shape switches (%s) turned off, so defaults/examples are judged with rules meant for the document's own schemas", w.t.Obj().Name(), describe(st.Val), strings.Join(swNames, ", ")))
-					return
-				}
-				var missing []string
-				for k := range switches {
-					off := false
-					for _, ref := range core.Refs(al) {
-						sfa, ok := ref.(*ssa.FieldAddr)
-						if !ok || sfa.Field != k {
-							continue
-						}
-						for _, r2 := range core.Refs(sfa) {
-							if s2, ok := r2.(*ssa.Store); ok && s2.Addr == ssa.Value(sfa) {
-								if c, ok := s2.Val.(*ssa.Const); ok && c.Value != nil && c.Value.ExactString() == "false" && core.InstrDominates(s2, st) {
-									off = true
-								} else {
-									off = false
+				// the private copy: an allocation of this function, or the result of a helper of the package whose every
+				// return is such an allocation
+				switchesOff := func(al *ssa.Alloc, before ssa.Instruction) []string {
+					var missing []string
+					for k := range switches {
+						off := false
+						for _, ref := range core.Refs(al) {
+							sfa, ok := ref.(*ssa.FieldAddr)
+							if !ok || sfa.Field != k {
+								continue
+							}
+							for _, r2 := range core.Refs(sfa) {
+								if s2, ok := r2.(*ssa.Store); ok && s2.Addr == ssa.Value(sfa) {
+									if c, ok := s2.Val.(*ssa.Const); ok && c.Value != nil && c.Value.ExactString() == "false" && core.InstrDominates(s2, before) {
+										off = true
+									} else {
+										off = false
+									}
 								}
 							}
 						}
+						if !off {
+							missing = append(missing, ost.Field(k).Name())
+						}
 					}
-					if !off {
-						missing = append(missing, ost.Field(k).Name())
+					return missing
+				}
+				var missing []string
+				switch v := st.Val.(type) {
+				case *ssa.Alloc:
+					missing = switchesOff(v, st)
+				case *ssa.Call:
+					h := core.StaticCallee(v)
+					okH := h != nil && p.InSubject(h) && len(h.Blocks) > 0
+					nRet := 0
+					if okH {
+						for _, hb := range h.Blocks {
+							ret, isRet := hb.Instrs[len(hb.Instrs)-1].(*ssa.Return)
+							if !isRet {
+								continue
+							}
+							nRet++
+							al, isAl := ret.Results[0].(*ssa.Alloc)
+							if !isAl {
+								okH = false
+								continue
+							}
+							missing = append(missing, switchesOff(al, ret)...)
+						}
 					}
+					if !okH || nRet == 0 {
+						r.Bad(rule, key, p.Pos(st.Pos()), fmt.Sprintf("the %s is given %s as its options: not a private options value with the schema-shape switches (%s) turned off, so defaults/examples are judged with rules meant for the document's own schemas", w.t.Obj().Name(), describe(st.Val), strings.Join(swNames, ", ")))
+						return
+					}
+				default:
+					r.Bad(rule, key, p.Pos(st.Pos()), fmt.Sprintf("the %s is given %s as its options: not a private options value with the schema-shape switches (%s) turned off, so defaults/examples are judged with rules meant for the document's own schemas", w.t.Obj().Name(), describe(st.Val), strings.Join(swNames, ", ")))
+					return
 				}
 				sort.Strings(missing)
 				if len(missing) > 0 {
